@@ -156,6 +156,7 @@ def case_decompress_scratch(ctx, fault, scratch):
         ctx.oblige("scratch_no_unexpected_exception", False, detail={"exception": repr(e)})
         return
     F.fault_at = None
+    nops_after = F.nops
     _final_state_ok(ctx, F, final, "scratch")
     src = F.get(BASE + ".cbin")
     ctx.oblige("compressed_source_untouched", bool(src.exists) and isinstance(src.content, Cbin) and src.content.complete and bool(F.get(BASE + ".ch").exists))
@@ -170,7 +171,7 @@ def case_decompress_scratch(ctx, fault, scratch):
         r1 = ctx.call("read", lambda: sr[p, :])
         r2 = ctx.call("read", lambda: sr2[p, :])
         ctx.oblige("scratch_values_equal_compressed_values", all_([core.eq(r1[j], r2[j]) for j in range(NC)]))
-    ctx.oblige("fault_was_exercised_or_beyond_last_op", raised is not None or fault is None or n0 + fault >= F.nops, detail={"fault": fault, "nops": F.nops - n0})
+    ctx.oblige("fault_was_exercised_or_beyond_last_op", raised is not None or fault is None or n0 + fault >= nops_after, detail={"fault": fault, "nops": nops_after - n0})
 
 
 def case_decompress_inplace(ctx, fault):
